@@ -184,7 +184,7 @@ def recorded_cases(chk, fi: FuncInfo, recs, fold, label_of):
 
 def check_pair_loop(chk, fi: FuncInfo, loop: ast.For, sites: c03e.Sites, c: Dict[str, Any], fold, label_of, eq_fields) -> str:
     """Returns the name of the list the triples are recorded in."""
-    paths = SX.Executor(nonnull=sites.nonnull, rewrite=sites.rewrite).run(loop.body)
+    paths = SX.Executor(nonnull=sites.nonnull, rewrite=sites.rewrite, helpers=c03e.new_helpers(chk.repo, fi)).run(loop.body, c03e.constant_tuples(fi, loop))
     stores = sorted({e.recv for p in paths for e in p.effects if e.kind == "call" and e.method == "append" and e.recv in sites.nonnull})
     if len(stores) != 1:
         raise NotReadable(f"the stacking loop appends to {stores}, expected one list of triples")
@@ -370,7 +370,7 @@ def check_registration(chk, fi: FuncInfo, sites: c03e.Sites) -> None:
 
 def check_orientation(chk, fi: FuncInfo, loop: ast.For, sites: c03e.Sites, fold, label_of, rule: str = "stack-orientation") -> None:
     """C11: every recorded stacking names the lower residue first (the later sorted() orders the list, it does not re-orient a pair)."""
-    paths = SX.Executor(nonnull=sites.nonnull, rewrite=sites.rewrite).run(loop.body)
+    paths = SX.Executor(nonnull=sites.nonnull, rewrite=sites.rewrite, helpers=c03e.new_helpers(chk.repo, fi)).run(loop.body, c03e.constant_tuples(fi, loop))
     stores = sorted({e.recv for p in paths for e in p.effects if e.kind == "call" and e.method == "append" and e.recv in sites.nonnull})
     if len(stores) != 1:
         raise NotReadable(f"the stacking loop appends to {stores}, expected one list of triples")
